@@ -166,7 +166,8 @@ impl Ctx {
             conf_seen: HashSet::new(),
             cli_confirmations: 0,
             rule: String::new(),
-            wall_cap_s: tier.pick(50.0, 900.0),
+            // SEED_VERIF_WALL_CAP_S: shorter cap, used to rehearse a slow host
+            wall_cap_s: std::env::var("SEED_VERIF_WALL_CAP_S").ok().and_then(|s| s.parse().ok()).unwrap_or(tier.pick(50.0, 900.0)),
         }
     }
 
